@@ -391,19 +391,27 @@ class Replay(_Base):
         return None
 
 
-def reference_run(job, lines=False):
+def reference_run(job, lines=False, census=None):
     """Run one job alone under the same tracer: (result, n_line_events, trace_hash, fn_counts
-    [, {(file, line): [step indices at which that source line is reached]}])."""
+    [, {(file, line): [step indices at which that source line is reached]}]). With a census the
+    dirty profile (see dirty_profile) is left in reference_run.last_dirty."""
     class Solo(_Base):
         def __init__(self):
             super().__init__(None)
             self.fn_counts = {}
             self.line_steps = {}
+            self.last_fp = None
+            self.dirty = []
 
         def first(self, sim, runnable):
             return 0
 
         def at_line(self, sim, wid, frame):
+            if census is not None:
+                fp = census.fingerprint()
+                if self.last_fp is not None and fp != self.last_fp and len(self.dirty) < 24:
+                    self.dirty.append(sim.steps[wid])
+                self.last_fp = fp
             if sim.is_entry:
                 nm = frame.f_code.co_name
                 self.fn_counts[nm] = self.fn_counts.get(nm, 0) + 1
@@ -415,6 +423,7 @@ def reference_run(job, lines=False):
             return None
     solo = Solo()
     sim = ThreadSim([job], solo).run()
+    reference_run.last_dirty = solo.dirty
     if lines:
         return sim.results[0], sim.steps[0], sim.trace_hash[0], solo.fn_counts, solo.line_steps
     return sim.results[0], sim.steps[0], sim.trace_hash[0], solo.fn_counts
@@ -449,3 +458,65 @@ def call_with_injection(fn, at, exc=Injected, region=None):
     finally:
         sys.settrace(None)
     return res, (fired[0] if fired else None), count[0]
+
+
+def dirty_profile(job, census, cap=24):
+    """Run one job alone and return the line-event indices right after which the shared-state
+    fingerprint changed, i.e. where this job had process-global state in flight. On a tree that
+    keeps all working state on the chunk the list is empty."""
+    class Prof(_Base):
+        def __init__(self):
+            super().__init__(None)
+            self.last = None
+            self.points = []
+
+        def first(self, sim, runnable):
+            return 0
+
+        def at_line(self, sim, wid, frame):
+            fp = census.fingerprint()
+            if self.last is not None and fp != self.last and len(self.points) < cap:
+                self.points.append(sim.steps[wid])
+            self.last = fp
+            return None
+    prof = Prof()
+    ThreadSim([job], prof, census=census).run()
+    return prof.points
+
+
+def window_schedules(dirty, steps, rng, max_switches=4, cap=60):
+    """Schedules (run-length lists for Replay) whose switches all sit at the edges of windows in
+    which some worker has global state in flight: candidates are the line events just before and
+    just after every dirty point. Two workers; up to max_switches alternating switches."""
+    cands = []
+    for w in (0, 1):
+        pts = sorted({max(1, d + off) for d in dirty[w] for off in (-1, 0)})
+        cands.append([p for p in pts if p < steps[w]])
+    out = []
+
+    def extend(seq, cur, pos):
+        # seq: list of (worker, absolute step at which it is parked)
+        if seq:
+            out.append(list(seq))
+        if len(seq) >= max_switches:
+            return
+        for p in cands[cur]:
+            if p > pos[cur]:
+                nxt = dict(pos)
+                nxt[cur] = p
+                extend(seq + [(cur, p)], 1 - cur, nxt)
+    for first in (0, 1):
+        extend([], first, {0: 0, 1: 0})
+    if len(out) > cap:
+        out = rng.sample(out, cap)
+    scheds = []
+    for seq in out:
+        pos = {0: 0, 1: 0}
+        sched = []
+        for w, p in seq:
+            sched.append([w, p - pos[w]])
+            pos[w] = p
+        last = seq[-1][0]
+        sched += [[1 - last, 1 << 40], [last, 1 << 40]]
+        scheds.append(sched)
+    return scheds
